@@ -606,11 +606,14 @@ func runC36(c *core.Ctx) error {
 	var mcs []mcCfg
 	if c.Thorough() {
 		mcs = []mcCfg{
-			{name: "safety", nt: 2, mem: 3, msgs: 2, faults: 1, net: 2, hdr: 2, burst: 2, ch: 2, patient: true, workers: 4},
-			{name: "safety-eager-timers", nt: 2, mem: 2, msgs: 1, faults: 1, net: 2, hdr: 1, burst: 1, ch: 2, workers: 3, cover: true},
-			{name: "safety-3-transports", nt: 3, mem: 3, msgs: 2, faults: 1, net: 2, hdr: 1, burst: 1, ch: 2, patient: true, workers: 4},
-			{name: "liveness", nt: 2, mem: 3, msgs: 2, faults: 1, net: 2, hdr: 1, burst: 1, ch: 2, patient: true, live: true, workers: 3},
-			{name: "liveness-eager-timers", nt: 2, mem: 2, msgs: 1, faults: 1, net: 2, hdr: 1, burst: 1, ch: 2, live: true, workers: 3},
+			{name: "safety-3-messages", nt: 2, mem: 4, msgs: 3, faults: 1, net: 2, hdr: 1, burst: 1, ch: 2, patient: true, workers: 6},
+			{name: "safety", nt: 2, mem: 3, msgs: 2, faults: 1, net: 2, hdr: 2, burst: 2, ch: 2, patient: true, workers: 3},
+			{name: "safety-2-faults", nt: 2, mem: 3, msgs: 2, faults: 2, net: 2, hdr: 1, burst: 1, ch: 2, patient: true, workers: 3},
+			{name: "safety-eager-timers", nt: 2, mem: 2, msgs: 1, faults: 1, net: 2, hdr: 1, burst: 1, ch: 2, workers: 2, cover: true},
+			{name: "safety-3-transports", nt: 3, mem: 3, msgs: 2, faults: 1, net: 2, hdr: 1, burst: 1, ch: 1, patient: true, workers: 2},
+			{name: "liveness", nt: 2, mem: 3, msgs: 2, faults: 1, net: 2, hdr: 1, burst: 1, ch: 2, patient: true, live: true, workers: 2},
+			{name: "liveness-eager-timers", nt: 2, mem: 2, msgs: 1, faults: 1, net: 2, hdr: 1, burst: 1, ch: 2, live: true, workers: 2},
+			{name: "liveness-3-transports", nt: 3, mem: 3, msgs: 2, faults: 1, net: 2, hdr: 1, burst: 1, ch: 1, patient: true, live: true, workers: 2},
 		}
 	} else {
 		mcs = []mcCfg{
@@ -630,7 +633,7 @@ func runC36(c *core.Ctx) error {
 				cfg = "MC_UdpTransportLive.cfg"
 			}
 			r, err := c.MustTLC(core.TLCOpts{Module: "MC_UdpTransport", Cfg: cfg, Consts: m.consts(), Workers: m.workers,
-				Coverage: m.cover, Timeout: time.Duration(c.Pick(300, 1100)) * time.Second, HeapMB: 6000})
+				Coverage: m.cover, Timeout: time.Duration(c.Pick(300, 1150)) * time.Second, HeapMB: 6000})
 			if err != nil {
 				k.fail(fmt.Errorf("%s: %v", m, err))
 				return
